@@ -13,8 +13,11 @@
 (* Results: a value, or a token  Raises (the code raises here), NoImpl     *)
 (* (NotImplementedError / default object that cannot be evaluated),        *)
 (* Irr (the closed form needs an irrational number on this input).         *)
-(* This module mirrors the CURRENT code including its defects; the         *)
-(* comparison operators at the end list every cell where C differs from A. *)
+(* This module mirrors the CURRENT code (tree 9094470, i.e. after the fix   *)
+(* commits 93a6993 12612f1 f40686e ebaa6fa f0c0e99 4cda57d 9094470)         *)
+(* including its open defect (KF-C07-1/2: proj_l1 ignores the weighting);  *)
+(* the comparison operators at the end list every cell where C differs     *)
+(* from A.                                                                 *)
 (***************************************************************************)
 EXTENDS FuncSem
 
@@ -62,10 +65,10 @@ ConjImpl(sp, f) ==
          IF f.v = <<>>
            THEN Mk("Translate", QZero, QZero, <<>>, f.u, <<LeafSC("IndZero", QZero, QNeg(f.c))>>)
          ELSE IF f.u = <<>>
-           THEN Mk("Quad", QZero, QNeg(f.c), RInv(f.v), <<>>, <<>>)           \* QuadraticForm(operator.inverse, constant=-c)
+           THEN Mk("Quad", QZero, QNeg(f.c), RScal(Q(1, 4), RInv(f.v)), <<>>, <<>>)   \* QuadraticForm(0.25 * operator.inverse, constant=-c)
          ELSE LET ib == RDiv(f.u, f.v)                                       \* opinv(vector) ( = opinv.adjoint(vector) )
-              IN Mk("Quad", QZero, QSub(Inner(sp, f.u, ib), f.c), RInv(f.v),
-                    RSub(RNeg(ib), ib), <<>>)
+              IN Mk("Quad", QZero, QSub(QMul(Q(1, 4), Inner(sp, f.u, ib)), f.c), RScal(Q(1, 4), RInv(f.v)),
+                    RScal(Q(-1, 4), RAdd(ib, ib)), <<>>)                     \* -0.25 * (opinv.adjoint(b) + opinv(b))
     (* derived classes *)
     [] f.op = "LScale" ->   \* self.scalar * self.functional.convex_conj * (1.0 / self.scalar)
          IF f.s[1] <= 0 THEN ERaises
@@ -167,16 +170,20 @@ ProxImpl(sp, f, sg, x) ==
          LET r == Strict([i \in 1..NGrp(sp) |-> XSqrt(GSq(sp, x, i))]) IN
          IF \E i \in 1..NGrp(sp) : ~XKnown(r[i]) THEN Irr
          ELSE Strict([j \in 1..n |-> LET i == ((j - 1) % sp.n) + 1 IN QDiv(x[j], QMax(QOne, r[i]))])
-    [] f.op = "Huber" ->    \* proximal_huber: mask indexing of a product-space element raises TypeError
-         IF ~AllEq(sg) THEN NoVec ELSE IF IsVF(sp) THEN Raises
-         ELSE Strict([i \in 1..n |-> IF QLe(QAbs(x[i]), QAdd(f.s, sg[1]))
-                                     THEN QMul(QDiv(f.s, QAdd(f.s, sg[1])), x[i])
-                                     ELSE QSub(x[i], QMul(sg[1], QSign(x[i])))])
+    [] f.op = "Huber" ->    \* proximal_huber: factor gamma/(gamma+sigma) where |x| <= gamma+sigma, else 1 - sigma/|x|
+         IF ~AllEq(sg) THEN NoVec
+         ELSE LET big == Strict([i \in 1..NGrp(sp) |-> QLt(QSq(QAdd(f.s, sg[1])), GSq(sp, x, i))])
+                  r   == Strict([i \in 1..NGrp(sp) |-> IF big[i] THEN XSqrt(GSq(sp, x, i)) ELSE QOne]) IN
+              IF \E i \in 1..NGrp(sp) : ~XKnown(r[i]) THEN Irr
+              ELSE Strict([j \in 1..n |-> LET i == IF IsVF(sp) THEN ((j - 1) % sp.n) + 1 ELSE j IN
+                             IF big[i] THEN QMul(QSub(QOne, QDiv(sg[1], r[i])), x[j])
+                             ELSE QMul(QDiv(f.s, QAdd(f.s, sg[1])), x[j])])
     [] f.op = "IndBox" ->  Strict([i \in 1..n |-> QMin(QMax(x[i], f.s), f.c)])
     [] f.op = "IndNonneg" -> Strict([i \in 1..n |-> QMax(x[i], QZero)])
     [] f.op = "IndZero" -> RConst(n, QZero)              \* ZeroOperator
     [] f.op = "Const"   -> x                             \* proximal_const_func
-    [] f.op = "IndSum"  -> Raises                        \* ProximalSum._call reads self.sum_value : AttributeError
+    [] f.op = "IndSum"  ->  \* ProximalSum: x + (sum_value - sum(x)) / x.size
+         LET off == QDiv(QSub(f.s, RSumAll(x)), QI(n)) IN Strict([i \in 1..n |-> QAdd(x[i], off)])
     [] f.op = "IndSimplex" -> ProjSimplex(x, f.s)
     [] f.op = "KLcc" ->     \* proximal_convex_conj_kl: (x + 1 - sqrt((x - 1)^2 + 4 sigma g)) / 2
          IF ~AllEq(sg) THEN NoVec
@@ -280,12 +287,13 @@ LipImpl(sp, f) ==
     [] f.op = "Const" -> QZero
     [] f.op = "Huber" -> QInv(f.s)                                           \* 1 / gamma
     [] f.op = "LScale"   -> XScal(QAbs(f.s), LipImpl(sp, Arg(f)))            \* np.abs(scalar) * func.grad_lipschitz
-    [] f.op = "ArgScale" -> XScal(QAbs(f.s), LipImpl(sp, Arg(f)))            \* np.abs(scalar) * func.grad_lipschitz
+    [] f.op = "ArgScale" -> XScal(QSq(f.s), LipImpl(sp, Arg(f)))             \* np.abs(scalar) ** 2 * func.grad_lipschitz
     [] f.op = "Sum"      -> XAdd(LipImpl(sp, Arg(f)), LipImpl(sp, Arg2(f)))
     [] f.op = "AddConst" -> XAdd(LipImpl(sp, Arg(f)), QZero)                 \* FunctionalSum with ConstantFunctional
     [] f.op = "Translate" -> LipImpl(sp, Arg(f))
-    [] f.op = "QuadPert" ->  \* linear_term None: func.grad_lipschitz ; else + linear_term.norm() ; 2 a never enters
-         IF f.u = <<>> THEN LipImpl(sp, Arg(f)) ELSE XAdd(LipImpl(sp, Arg(f)), NormOf(sp, f.u))
+    [] f.op = "QuadPert" ->  \* func.grad_lipschitz + 2 |a| (+ linear_term.norm() when a linear term is given)
+         LET L == XAdd(LipImpl(sp, Arg(f)), QMul(QI(2), QAbs(f.s))) IN
+         IF f.u = <<>> THEN L ELSE XAdd(L, NormOf(sp, f.u))
     [] f.op = "Bregman"  -> XAdd(LipImpl(sp, Arg(f)), NormOf(sp, f.u))       \* + subgrad.norm()
     [] OTHER -> NaN
 
